@@ -37,15 +37,22 @@ structure Obj where
   /-- ghost: number of cloudpickle round trips this copy has been through -/
   gen : Nat
 
-/-- the three wrapper classes:
+/-- the wrapper classes:
 `object` = `CloudpickledObjectWrapper`, `callable` = `CallableObjectWrapper` (adds `__call__`),
-`classInst` = the local `CloudpickledClassWrapper(CloudpickledObjectWrapper)` created by
-`wrap_non_picklable_objects(cls)` — note its base is *not* `CallableObjectWrapper`. -/
+`classInst b` = the local `CloudpickledClassWrapper(wrapper_base)` created by
+`wrap_non_picklable_objects(cls)`, where `wrapper_base` is `CallableObjectWrapper` iff
+`b = any("__call__" in vars(klass) for klass in cls.__mro__)`, else `CloudpickledObjectWrapper`. -/
 inductive WKind where
   | object
   | callable
-  | classInst
+  | classInst (callableBase : Bool)
   deriving DecidableEq, Repr
+
+/-- does the wrapper class define `__call__` -/
+def WKind.hasCall : WKind → Bool
+  | .object => false
+  | .callable => true
+  | .classInst b => b
 
 /-- Python values of interest: a bare object or a wrapper instance (`_obj` may itself be a wrapper). -/
 inductive Val where
@@ -63,18 +70,16 @@ inductive Attr where
   /-- something defined by the wrapper's class / `object` -/
   | classAttr (n : Nat)
 
-/-- `callable(v)`: looks at the *type* — only `CallableObjectWrapper` defines `__call__`. -/
+/-- `callable(v)`: looks at the *type* — only `CallableObjectWrapper` (and subclasses) define `__call__`. -/
 def isCallable : Val → Bool
   | .raw o => o.callable
-  | .wrap .callable _ _ => true
-  | .wrap _ _ _ => false
+  | .wrap k _ _ => k.hasCall
 
 /-- `v(args)`; `none` = `TypeError: object is not callable`.
 `CallableObjectWrapper.__call__(*args, **kwargs) = self._obj(*args, **kwargs)`. -/
 def callV : Val → Nat → Option Nat
   | .raw o, x => if o.callable then some (o.call x) else none
-  | .wrap .callable _ v, x => callV v x
-  | .wrap _ _ _, _ => none
+  | .wrap k _ v, x => if k.hasCall then callV v x else none
 
 /-- normal attribute lookup on a wrapper instance (instance `__dict__`, then the class) -/
 def ownLookup (keep : Bool) (inner : Val) : Name → Option Attr
@@ -103,19 +108,24 @@ def getattr : Val → Name → Option Attr
     | some r => some r                              -- found without `__getattr__`
     | none => if !refused a then getattr v a else none
 
-/-- names that never reach `__getattr__` on a wrapper -/
-def reserved : Name → Bool
-  | .user _ => false
-  | _ => true
+/-- names that every Python object answers itself (found on the type / on `object`): no proxy can
+forward them, and they are outside C16's "attribute reads" -/
+def typeLevel : Name → Bool
+  | .cls _ => true
+  | _ => false
+
+/-- names that never reach the forwarding branch of `__getattr__` on a wrapper -/
+def reserved (a : Name) : Bool := typeLevel a || refused a
 
 /-- `_wrap_non_picklable_objects(obj, keep_wrapper)` -/
 def wrapNP (v : Val) (keep : Bool) : Val :=
   .wrap (if isCallable v then .callable else .object) keep v
 
 /-- `wrap_non_picklable_objects(cls, keep_wrapper)(*args, **kwargs)`: `__init__` builds the instance
-(`ctor args`) and stores it in a `CloudpickledClassWrapper`. -/
-def wrapClass {α : Type} (ctor : α → Val) (keep : Bool) (args : α) : Val :=
-  .wrap .classInst keep (ctor args)
+(`ctor args`) and stores it in a `CloudpickledClassWrapper`; `definesCall` is the class-level test
+`any("__call__" in vars(klass) for klass in cls.__mro__)` that selects the wrapper's base class. -/
+def wrapClass {α : Type} (ctor : α → Val) (definesCall : Bool) (keep : Bool) (args : α) : Val :=
+  .wrap (.classInst definesCall) keep (ctor args)
 
 /-- `wrap_non_picklable_objects(obj, keep_wrapper)` for a non-class `obj` -/
 def wrapObj (v : Val) (keep : Bool) : Val := wrapNP v keep
